@@ -31,6 +31,9 @@ PROGS = {
     "stl_const.fj": ("stl", 'N = 3\nM = N + 1\nstl.startup\n  stl.output \'0\' + M\n  stl.loop\n', b""),
     "nostl_hello.fj": ("nostl", None, b""),
     "stl_cat.fj": ("stl", None, b"ab\n"),
+    # several files, given in an order that is NOT the alphabetical one, with top-level code in both (the order is the program)
+    "multi": ("stl", [("zz_first.fj", 'stl.startup\n  stl.output "one "\n  second_part\n'),
+                      ("aa_second.fj", 'def second_part {\n  stl.output "two "\n}\n  stl.output "three\\n"\n  stl.loop\n')], b""),
 }
 
 API_CHILD = r'''
@@ -46,7 +49,7 @@ for j in jobs:
     out = Path(j["out"]); r = {"id": j["id"], "ran": True, "ok": False, "w": 0, "version": 0, "digest": "", "out": "", "term": ""}
     try:
         with contextlib.redirect_stdout(io.StringIO()):
-            flipjump.assemble([Path(j["src"])], out, memory_width=j["w"], use_stl=j["stl"], fjm_version=FJMVersion(j["version"]),
+            flipjump.assemble([Path(x) for x in j["srcs"]], out, memory_width=j["w"], use_stl=j["stl"], fjm_version=FJMVersion(j["version"]),
                               warning_as_errors=j["werror"], debugging_file_path=(Path(j["dbg"]) if j["dbg"] else None), print_time=False)
         b = out.read_bytes()
         magic, w, ver, cnt = struct.unpack_from("<HHQQ", b, 0)
@@ -62,7 +65,7 @@ for j in jobs:
     try:
         dev2 = FixedIO(bytes(j["inp"]))
         with contextlib.redirect_stdout(io.StringIO()):
-            st2 = flipjump.assemble_and_run([Path(j["src"])], memory_width=j["w"], use_stl=j["stl"], fjm_version=FJMVersion(j["version"]),
+            st2 = flipjump.assemble_and_run([Path(x) for x in j["srcs"]], memory_width=j["w"], use_stl=j["stl"], fjm_version=FJMVersion(j["version"]),
                                             warning_as_errors=j["werror"], io_device=dev2, print_time=False, print_termination=False)
         r.update(qs_ok=True, qs_out=dev2.get_output(allow_incomplete_output=True).decode("latin-1"), qs_term=str(st2.termination_cause))
     except BaseException as e:
@@ -117,8 +120,14 @@ def run_combo(args):
     i, o, prog, kind, text, inp, base = args
     d = Path(base) / f"c{i}_{prog.split('.')[0]}"
     d.mkdir(parents=True, exist_ok=True)
-    src = d / prog
-    src.write_text(text)
+    if isinstance(text, list):
+        srcs = []
+        for name_, t_ in text:
+            (d / name_).write_text(t_)
+            srcs.append(str(d / name_))
+    else:
+        (d / prog).write_text(text)
+        srcs = [str(d / prog)]
     env = dict(os.environ, PYTHONHASHSEED="0", PYTHONIOENCODING="latin-1")
     common = cli_args(o)
     sil = ["-s"] if o["s"] else []
@@ -127,7 +136,7 @@ def run_combo(args):
     one = {"ok": False, "w": 0, "version": 0, "digest": "", "out": "", "term": ""}
     out1 = d / "one.fjm"
     dbg1 = ["-d", str(d / "one.fjd")] if o["d"] else []
-    p = subprocess.run(FJ + [str(src), "-o", str(out1)] + common + sil + dbg1, input=inp, capture_output=True, env=env, cwd=str(d), timeout=300)
+    p = subprocess.run(FJ + srcs + ["-o", str(out1)] + common + sil + dbg1, input=inp, capture_output=True, env=env, cwd=str(d), timeout=300)
     if p.returncode == 0 and out1.exists():
         w, ver, dg = header(out1)
         so = p.stdout.decode("latin-1")
@@ -140,7 +149,7 @@ def run_combo(args):
     two = {"ok": False, "w": 0, "version": 0, "digest": "", "out": "", "term": ""}
     out2 = d / "two.fjm"
     dbg2 = ["-d", str(d / "two.fjd")] if o["d"] else []
-    p1 = subprocess.run(FJ + ["--asm", str(src), "-o", str(out2)] + common + sil + dbg2, capture_output=True, env=env, cwd=str(d), timeout=300)
+    p1 = subprocess.run(FJ + ["--asm"] + srcs + ["-o", str(out2)] + common + sil + dbg2, capture_output=True, env=env, cwd=str(d), timeout=300)
     if p1.returncode == 0 and out2.exists():
         p2 = subprocess.run(FJ + ["--run", str(out2)] + sil + dbg2, input=inp, capture_output=True, env=env, cwd=str(d), timeout=300)
         if p2.returncode == 0:
@@ -153,7 +162,7 @@ def run_combo(args):
     else:
         two["err"] = p1.stderr.decode("latin-1")[-300:]
     rec["one"], rec["two"] = one, two
-    rec["apijob"] = {"src": str(src), "out": str(d / "api.fjm"), "dbg": str(d / "api.fjd") if o["d"] else "", "inp": list(inp)}
+    rec["apijob"] = {"srcs": srcs, "out": str(d / "api.fjm"), "dbg": str(d / "api.fjd") if o["d"] else "", "inp": list(inp)}
     return rec
 
 
@@ -191,7 +200,7 @@ CHECK_DEADLOCK FALSE
         work = []
         for i, c in enumerate(sel):
             o = c["opts"]
-            names = ["nostl_hello.fj"] if o["nostl"] else [["stl_hello.fj", "stl_cat.fj", "nostl_hello.fj", "stl_const.fj"][i % 4]]
+            names = ["nostl_hello.fj"] if o["nostl"] else [["stl_hello.fj", "stl_cat.fj", "nostl_hello.fj", "stl_const.fj", "multi"][i % 5]]
             for pn in names:
                 kind, text, inp = progs[pn]
                 work.append((i, o, pn, kind, text, inp, str(base)))
